@@ -692,6 +692,7 @@ fn parse_req(x: &Sx) -> Result<Req, String> {
 impl World {
     async fn new(ppmode: bool, oracles: [Oracle; NTU], rt: tokio::runtime::Handle) -> World {
         let dir = tempfile::Builder::new().prefix("vh-c09-").tempdir_in(scratch()).unwrap();
+        SCRATCH_DIRS.lock().unwrap().push(dir.path().to_path_buf());
         let cwd = dir.path().join("w");
         let cache = dir.path().join("cache");
         std::fs::create_dir_all(&cwd).unwrap();
@@ -1475,6 +1476,10 @@ fn spawn_worker() -> Worker {
     Worker { tx, rx }
 }
 
+/// Every scratch directory a `World` was given: the process ends with `exit` (abandoned threads are not joined), so
+/// the directories of worlds that are still alive then are removed here instead of by their `TempDir`.
+static SCRATCH_DIRS: std::sync::Mutex<Vec<std::path::PathBuf>> = std::sync::Mutex::new(Vec::new());
+
 fn main() {
     let leg = std::env::args().nth(1).unwrap_or_default();
     if leg != "reqsm" {
@@ -1520,5 +1525,10 @@ fn main() {
     // do not wait for abandoned threads
     use std::io::Write;
     let _ = std::io::stdout().flush();
+    if let Ok(dirs) = SCRATCH_DIRS.lock() {
+        for d in dirs.iter() {
+            let _ = std::fs::remove_dir_all(d);
+        }
+    }
     std::process::exit(0);
 }
